@@ -85,7 +85,8 @@ class Graph:
 
 
 # Event fields that are *results* of a call; everything else identifies the call.
-RESULT_FIELDS = {"out", "ret", "usedkey", "method", "err", "val", "res", "path", "errpath", "log", "extra"}
+RESULT_FIELDS = {"out", "ret", "usedkey", "method", "err", "val", "res", "path", "errpath", "log", "extra",
+                 "typed", "acceptable", "rop", "rout", "rret", "repl"}
 
 
 def case_key(ev):
@@ -174,7 +175,10 @@ def run_graph(adapter, graph, max_cases=None, seed=0, stop_after=20):
             obs_state = adapter.observe(sut)
             stats["steps"] += 1
             stats["cases"] += 1
-            by_op[ev0.get("op", "?")] += 1
+            opname = ev0.get("op", "?")
+            if isinstance(opname, dict):
+                opname = "%s.%s" % (ev0.get("c", ""), opname.get("m", "?"))
+            by_op[opname] += 1
             whys = []
             for ev, to in alts:
                 why = _matches(obs_ev, obs_state, ev, to)
